@@ -116,6 +116,11 @@ func (r *standardRenderer) stop() {
 	// Move the cursor back to the beginning of the line
 	r.execute("\r")
 
+	// The line we just erased is no longer on screen: a later render (after a
+	// restart, or the final one when the program quits while the terminal is
+	// released) must not skip it as unchanged.
+	r.repaint()
+
 	if r.useANSICompressor {
 		if w, ok := r.out.(io.WriteCloser); ok {
 			_ = w.Close()
